@@ -20,7 +20,7 @@ TEXT_CODECS = ('jer', 'xer', 'gser')
 class ProbeSet(object):
 
     def __init__(self, parsed, seed, codec, numeric_enums=False, k=2,
-                 max_types=12):
+                 max_types=12, extra=()):
         rng = random.Random(mix(seed, 'probes', codec, numeric_enums))
         gen = ValGen(parsed, rng, numeric_enums=numeric_enums, max_depth=3,
                      absent_additions=codec not in TEXT_CODECS)
@@ -48,12 +48,33 @@ class ProbeSet(object):
                 self.probes.append((type_name, 'corrupt',
                                     corrupt(values[0], rng)))
 
+        # Hand-written probes: (type_name, value) encoded with constraint
+        # checking on.
+        for type_name, value in extra:
+            self.probes.append((type_name, 'extra', value))
+
     def apply(self, spec, budget=BUDGET):
         """Returns list of outcome strings, one or more per probe."""
 
         out = []
 
         for type_name, kind, value in self.probes:
+            if kind == 'extra':
+                outcome, _ = steps.call(
+                    lambda: spec.encode(type_name, value,
+                                        check_constraints=True), budget)
+                out.append('{}:x:{}'.format(type_name,
+                                            canon_outcome(outcome)))
+
+                if outcome[0] == 'ok' and self.codec != 'gser':
+                    encoded = outcome[1]
+                    outcome, _ = steps.call(
+                        lambda: spec.decode(type_name, encoded), budget)
+                    out.append('{}:xd:{}'.format(type_name,
+                                                 canon_outcome(outcome)))
+
+                continue
+
             if kind == 'corrupt':
                 outcome, _ = steps.call(
                     lambda: spec.encode(type_name, value, check_types=True,
